@@ -105,7 +105,8 @@ class Module:
             from .normalize import unroll_literal_loops, fuse_nested_comprehensions
             self.norm_counts['unrolled'] = unroll_literal_loops(self.tree)
             self.norm_counts['fused'] = fuse_nested_comprehensions(self.tree)
-            from .normalize import flatten_starred_displays
+            from .normalize import flatten_starred_displays, slice_objects_to_slices
+            self.norm_counts['slice_objects'] = slice_objects_to_slices(self.tree)
             self.norm_counts['starred_flattened'] = flatten_starred_displays(self.tree)
             ast.fix_missing_locations(self.tree)
             if self.inlined or self.grafted:
